@@ -9,11 +9,14 @@ TABLES = ["t_classes", "t_ext_tol", "t_stack", "t_filter"]
 RULE = M.LosslessPart.RULE
 TRUSTED_BASE = [
     "nibabel DicomWrapper (slice_indicator, affine), nibabel Nifti1Image/header (best affine = float32 sform) and pydicom are "
-    "contracts: the sorter's view of every file (props/stacklib.abstract_file), the affine of each per-file extension, the axis "
-    "permutation of the voxel reordering (dcmstack.reorder_voxels on a twin stack) and the affine written into the extension are "
-    "read from the implementation and given to the model as inputs (the geometry half, coq/Conv/Geom*.v, C02/C17, is where they "
-    "are modelled); the extension CONTENT, its shape and slice_dim, the final file order and every lookup are model outputs "
-    "compared exactly",
+    "contracts: the sorter's view of every file (props/stacklib.abstract_file), the affine of each per-file extension "
+    "(NiftiWrapper.from_dicom_wrapper on the same data set), the axis permutation of the voxel reordering "
+    "(dcmstack.reorder_voxels on a twin stack) and the affine written into the extension are read from the implementation "
+    "through public API and given to the model as INPUTS (the geometry half, coq/Conv/Geom*.v, C02/C17, is where they are "
+    "modelled); the extension CONTENT, its shape and slice_dim, the final file order (read off the output array: every file "
+    "is located by its pixel values) and every lookup are model outputs compared exactly.  The oracles never use a "
+    "library-derived value as yardstick: ground truth is convmeta.gen_truth(case) (what the generator put into the data "
+    "set / dictionary) and stacklib.spec_truth; the clause `model inputs == generator truth` is part of both oracles",
     "Python == on metadata values is structural equality: one value type per key (never 1 vs 1.0 vs True), no NaN",
     "the theorems import the merge law C03 (Ext/ProofsMerge.v: merge_den, merge_total), the lookup law C08 "
     "(Ext/ProofsLookup.v: get_meta_value) and the sorter's invariant (Stack/ProofsInv.v, ProofsC11.v)",
@@ -24,8 +27,12 @@ ASSUMPTIONS = [
     "differences up to 5e-5, for which the conversion silently drops per-slice values (C01_lossless_refuted; stream orient_lo)",
     "metadata filters depend on the key only (make_key_regex_filter, default_meta_filter, key lambdas); a filter that looks at "
     "values is outside the model",
-    "the extracted dictionary is an input (extract.default_extractor is C15's); in the 'extract' stream the ground truth is "
-    "extract.default_extractor(ds) as the property says, in the 'hand' stream a hand-built dict passed to add_dcm(ds, meta)",
+    "the extraction itself is C15's: here the dictionary the stack works with is a model input; the oracle's ground truth is "
+    "the generator's own record of what each data set / hand-built dictionary carries (keyword elements, one sequence, "
+    "Siemens CSA image / series tags, an untranslated private element that must yield nothing), and the 'extract' stream "
+    "reports any difference between dcmstack's extraction and that record",
+    "values are JSON-like: None, bool, int, float, str, (empty / nested) lists and dicts; bytes are outside the domain (not "
+    "serialisable: to_nifti itself raises on them when it sizes the extension)",
     "modelled, not verified: key order inside the class dictionaries; the dcmmeta_reorient_transform field (not part of the "
     "extension model's header; it is the transform of C17); heap aliasing (the deepcopy of the 3-D branch)",
     "the statement is relative to the FINAL file order o_order of Stack.Model.to_nifti (list order follows data order): that the "
